@@ -326,3 +326,10 @@ func vPickString(key string, options []string) string {
 	}
 	panic(vAssumeFailed{})
 }
+
+// vBudgetFails(label): from here on, running out of the engine's step budget
+// on this path is a violation with that label - used where the program under
+// test is known to need only a bounded number of steps, so "did not return"
+// is the defect.  Natively a no-op: a replay that does not return within the
+// native time limit reproduces it.  vBudgetFails("") switches it off.
+func vBudgetFails(label string) {}
